@@ -37,7 +37,7 @@ func init() {
 		Flavour: "race",
 		Rule: "executions = (goroutine count, GOMAXPROCS, seed) runs of a workload in which each goroutine owns its receivers and draws, from its own PRNG, API calls whose arguments come from one shared table: " +
 			"shared *Element (affine, λ-scaled, identity forms), shared *Scalar, shared message/DST/encoding slices in all layouts (len=cap, spare capacity 1/8/64, interior sub-slice, zero-length of a non-empty array, DST lengths on both sides of 255), shared [32]byte arrays. " +
-			"Every exported function and method is in the mix (constructors, Base, Identity, Set, Copy, Add, Subtract, Double, Negate, Multiply, Equal, IsIdentity, all encoders/decoders, HashToGroup, EncodeToGroup, HashToScalar, all scalar operations, Pow, CSelect, LessOrEqual, Bits, Random, Order). " +
+			"Each program starts by calling every function once in the same order, and half of the runs are concurrent-first (nothing of the library has run in the process before the goroutines start), so that first uses coincide. Every exported function and method is in the mix (constructors, Base, Identity, Set, Copy, Add, Subtract, Double, Negate, Multiply, Equal, IsIdentity, all encoders/decoders, HashToGroup, EncodeToGroup, HashToScalar, all scalar operations, Pow, CSelect, LessOrEqual, Bits, Random, Order). " +
 			"Oracle: zero race-detector reports with a frame of the module under test; every call's result equals the result of the same call sequence run alone beforehand; the package-level identity and error variables are unchanged. " +
 			"The detector is armed first with a deliberate race in harness code and the run is inconclusive if that is not reported. evaluations = API calls made concurrently; non-trivial = calls taking a shared argument; distinct = distinct (function, shared-argument) pairs exercised concurrently.",
 		Assume: []string{
@@ -307,11 +307,20 @@ func c16RunProgram(seed uint64, g, iters int, sh *c16Shared, yield bool) *c16Log
 	st := &c16Own{e: secp256k1.Base(), s: secp256k1.NewScalar().SetUInt64(uint64(g) + 3)}
 	lg := &c16Log{names: make([]string, 0, iters), digests: make([]uint64, 0, iters), det: make([]bool, 0, iters)}
 
-	for i := 0; i < iters; i++ {
-		op := r.Intn(c16NOps)
-		// Multiply and Pow are ~100x the cost of the rest under -race: thin them out
-		if (op == 4 || op == 27) && r.Intn(6) != 0 {
-			op = r.Intn(4)
+	for i := 0; i < iters+c16NOps; i++ {
+		var op int
+
+		if i < c16NOps {
+			// every program starts by calling each function once, in the same order: in a concurrent-first run the
+			// FIRST use of every function in the process then happens in several goroutines at about the same time
+			// (lazily initialised package state is racy exactly there)
+			op = i
+		} else {
+			op = r.Intn(c16NOps)
+			// Multiply and Pow are ~100x the cost of the rest under -race: thin them out
+			if (op == 4 || op == 27) && r.Intn(6) != 0 {
+				op = r.Intn(4)
+			}
 		}
 
 		y := r.Intn(8) == 0 // draw regardless of yield so that the solo and concurrent runs use the same stream
@@ -339,13 +348,14 @@ type c16ChildResult struct {
 	PerFn        map[string]int64 `json:"per_fn"`
 	Mismatches   []string         `json:"mismatches"`
 	GlobalChange string           `json:"global_change"`
+	ConcFirst    bool             `json:"concurrent_first"`
 	Done         bool             `json:"done"`
 }
 
 var reArg = regexp.MustCompile(`\((e|s|enc|msg|arr)\d`)
 
 // C16Load is the child: solo pass, then the concurrent pass, then comparison.
-func C16Load(seed uint64, goroutines, iters int, out string) int {
+func C16Load(seed uint64, goroutines, iters int, out string, concFirst bool) int {
 	sh := c16BuildShared(seed)
 	res := &c16ChildResult{Goroutines: goroutines, Iters: iters, GOMAXPROCS: runtime.GOMAXPROCS(0), PerFn: map[string]int64{}}
 
@@ -380,34 +390,49 @@ func C16Load(seed uint64, goroutines, iters int, out string) int {
 
 	snap0 := snapshot()
 
-	// 1. solo pass: the same programs, one after the other
 	solo := make([]*c16Log, goroutines)
-	for g := 0; g < goroutines; g++ {
-		solo[g] = c16RunProgram(seed, g, iters, sh, false)
-	}
-
-	if !bytes.Equal(snapshot(), snap0) {
-		res.Mismatches = append(res.Mismatches, "shared argument memory changed during the SOLO pass (a write into an argument)")
-	}
-
-	// 2. concurrent pass: no synchronisation between the start barrier and Wait
 	conc := make([]*c16Log, goroutines)
-	start := make(chan struct{})
 
-	var wg sync.WaitGroup
+	soloPass := func() {
+		for g := 0; g < goroutines; g++ {
+			solo[g] = c16RunProgram(seed, g, iters, sh, false)
+		}
 
-	for g := 0; g < goroutines; g++ {
-		wg.Add(1)
-
-		go func(g int) {
-			defer wg.Done()
-			<-start
-			conc[g] = c16RunProgram(seed, g, iters, sh, true)
-		}(g)
+		if !bytes.Equal(snapshot(), snap0) {
+			res.Mismatches = append(res.Mismatches, "shared argument memory changed during the SOLO pass (a write into an argument)")
+		}
 	}
 
-	close(start)
-	wg.Wait()
+	// concurrent pass: no synchronisation between the start barrier and Wait
+	concPass := func() {
+		start := make(chan struct{})
+
+		var wg sync.WaitGroup
+
+		for g := 0; g < goroutines; g++ {
+			wg.Add(1)
+
+			go func(g int) {
+				defer wg.Done()
+				<-start
+				conc[g] = c16RunProgram(seed, g, iters, sh, true)
+			}(g)
+		}
+
+		close(start)
+		wg.Wait()
+	}
+
+	// The same programs run once alone (one after the other) and once concurrently. In a concurrent-first run the
+	// library has not been used at all before the goroutines start (the shared table is built from raw limbs).
+	res.ConcFirst = concFirst
+	if concFirst {
+		concPass()
+		soloPass()
+	} else {
+		soloPass()
+		concPass()
+	}
 
 	// 3. comparison
 	pairs := map[string]bool{}
@@ -620,7 +645,10 @@ func c16Parent(p *mon.Prop, pc *mon.ParentCtx) *mon.Aggregate {
 	agg.Counters["race-canary-fired"] = 1
 
 	// 2. workloads
-	type cfg struct{ g, procs, iters int }
+	type cfg struct {
+		g, procs, iters int
+		concFirst       bool
+	}
 
 	var cfgs []cfg
 
@@ -628,12 +656,12 @@ func c16Parent(p *mon.Prop, pc *mon.ParentCtx) *mon.Aggregate {
 		for rep := 0; rep < 6; rep++ {
 			for _, g := range []int{2, 4, 16, 64} {
 				for _, pr := range []int{2, 4, 16} {
-					cfgs = append(cfgs, cfg{g, pr, 12000 / g})
+					cfgs = append(cfgs, cfg{g, pr, 12000 / g, rep%2 == 1})
 				}
 			}
 		}
 	} else {
-		cfgs = []cfg{{2, 2, 1500}, {4, 4, 800}, {16, 16, 300}, {64, 16, 100}, {8, 2, 500}, {16, 4, 300}}
+		cfgs = []cfg{{2, 2, 1500, false}, {4, 4, 800, true}, {16, 16, 300, false}, {64, 16, 100, true}, {8, 2, 500, true}, {16, 4, 300, false}, {8, 8, 300, true}, {32, 16, 100, true}}
 	}
 
 	type outcome struct {
@@ -663,7 +691,7 @@ func c16Parent(p *mon.Prop, pc *mon.ParentCtx) *mon.Aggregate {
 			out := filepath.Join(pc.Scratch, fmt.Sprintf("raceload.%d.json", i))
 			race := filepath.Join(pc.Scratch, fmt.Sprintf("race.%d", i))
 			logp, err, timed := runChild(
-				[]string{"raceload", fmt.Sprint(seed), fmt.Sprint(cf.g), fmt.Sprint(cf.iters), out},
+				[]string{"raceload", fmt.Sprint(seed), fmt.Sprint(cf.g), fmt.Sprint(cf.iters), out, fmt.Sprint(cf.concFirst)},
 				[]string{"GORACE=halt_on_error=0 log_path=" + race, fmt.Sprintf("GOMAXPROCS=%d", cf.procs)},
 				fmt.Sprintf("raceload.%d.out", i), 60*time.Minute)
 
@@ -687,7 +715,7 @@ func c16Parent(p *mon.Prop, pc *mon.ParentCtx) *mon.Aggregate {
 	var configs []string
 
 	for i, o := range outs {
-		configs = append(configs, fmt.Sprintf("G=%d,GOMAXPROCS=%d,iters=%d,seed=%d", o.c.g, o.c.procs, o.c.iters, o.seed))
+		configs = append(configs, fmt.Sprintf("G=%d,GOMAXPROCS=%d,iters=%d,seed=%d,concurrent-first=%v", o.c.g, o.c.procs, o.c.iters, o.seed, o.c.concFirst))
 
 		if o.timed {
 			agg.Incon("race workload %d: watchdog fired", i)
@@ -709,6 +737,10 @@ func c16Parent(p *mon.Prop, pc *mon.ParentCtx) *mon.Aggregate {
 		agg.Counters["shared-argument-calls"] += o.res.SharedCalls
 		agg.Counters["goroutines-run"] += int64(o.res.Goroutines)
 		agg.Counters["workload-runs"]++
+
+		if o.res.ConcFirst {
+			agg.Counters["workload-runs-concurrent-first"]++
+		}
 
 		for _, pr := range o.res.Pairs {
 			pairs[pr] = true
